@@ -303,9 +303,12 @@ CLAIMED = {
         'that image against a page-wise ghost tag (representation invariant, every intermediate tag state has the '
         'shape cache[0:4j] + old[4j:], only differing pages are written). Type 1 write path likewise for layouts whose '
         'reserved range lies outside the message area or covers its tail (the static 120 octet layout), with the '
-        'Type 1 memory reader\'s synchronize() proved for block-wise and byte-wise writing. Type 1 dynamic memory '
-        '(reserved octets 104..127 inside the area) and Type 2 with reserved ranges inside the message area (TLV walk '
-        'with skip bytes) are '
+        'Type 1 memory reader\'s synchronize() proved for block-wise and byte-wise writing. For ONE reserved range inside '
+        'the message area behind the TLV header (the lock/OTP octets 104..127 of every dynamic memory Type 1 Tag, a '
+        'memory control TLV of a Type 2 Tag) both writers are proved too: the data loop carries the closed form of '
+        '"value octets skip the range" as its invariant, the skip-jump loop has its own invariant and variant, the '
+        'fresh reader (independent view with the range skipped) finds exactly the message. Layouts with several '
+        'reserved ranges inside the message area are '
         'bounded stand-ins (real code under CPython on 23/44 fixed layouts x boundary lengths, independent TLV reader); '
         'the control-TLV helpers get_lock_byte_range/get_rsvd_byte_range of both tag types are proved against the '
         'independent reading for every TLV value '
@@ -323,7 +326,8 @@ CLAIMED = {
         'command (each Type 3 block-list write, each UPDATE BINARY), proved at every call site for every layout, '
         'message and previous content, inside the write loops by invariant; the final state satisfies it too. '
         'Type 4 is stated for MLc >= NLEN field size (with a smaller MLc no command sequence can commit the length '
-        'atomically). Type 1/2 are bounded stand-ins and not counted.',
+        'atomically). Type 1/2 are bounded stand-ins (every cut point of every write on 23/44 layouts) and not counted: '
+        'the cut-point queries over img[0:u*j] + mem[u*j:] did not discharge within the budget.',
    design_ref='DESIGN.md Part A sections A.4 (this property), A.8',
    note='Atomicity of one command on the tag is assumed (a block-list write / UPDATE BINARY happens entirely or not '
         'at all). Same environment models and well-formedness as C01.',
@@ -336,8 +340,9 @@ CLAIMED = {
         'memory); Type 4 format(wipe) stays inside the file and leaves an empty message. Type 2 (reserved ranges '
         'outside the message area): after every prefix of every synchronize() nothing before the NDEF length field and '
         'nothing behind the data area differs from before (interface obligation of the abstract image at each of the '
-        'three flushes); Type 1 likewise for the static-layout class. Type 1 dynamic memory and Type 2 with reserved '
-        'ranges inside the area are bounded stand-ins and not counted.',
+        'three flushes); Type 1 likewise; with one reserved range inside the message area the octets of that range keep '
+        'their value as well (both tag types). Layouts with several reserved ranges inside the area are bounded '
+        'stand-ins and not counted.',
    design_ref='DESIGN.md Part A sections A.4 (this property), A.8',
    note='Same environment models as C01. Type 3 format() (tt3_sony FelicaLite) and Type 1/2 _format are not covered.',
    technique='contract-based deductive verification: frame conditions on ghost tag memory (pyvc)'),
